@@ -180,6 +180,14 @@ def run(chk):
                '<v title="Search &quot;{{k}}&quot;"/>', "<v title='it&#39;s \"{{k}}\"'/>", '<v>{{a}}{{b}}</v>', '<v> {{a}} </v>', '<v>\n{{a}}\n</v>']:
         srcs.append(t_)
         nshape += 1
+    # a binding followed by static text (the value parser appends the text to a literal it adds itself), and unquoted attribute values
+    for e in ["x + 's'", "'s' + x", "x + ''", "a + b + 't'", "x + 's' + 't'", "(x + 's')", "x - 's'", "f(x) + '&'"]:
+        srcs.append('<v title="{{ %s }}q&amp;" data-k="{{ %s }}{{ %s }}z">{{ %s }}t&lt;</v>' % (e, e, e, e))
+        nshape += 1
+    for attr in ["data=abc", "data=..o", "data=a:1", "is=t0 data=o", "is=t0", "wx:if=abc", "wx:for=abc", "class=abc", "bind:tap=abc", "model:value=abc",
+                 "slot:a=abc", "wx:key=k", "data={{a:1}}", "data={{...o}}"]:
+        srcs.append('<template name="t0">{{a}}{{p}}</template><template is="t0" %s/><v %s>x</v><block wx:for="{{l}}" %s>{{item}}</block>' % (attr, attr, attr))
+        nshape += 1
     chk.bump("oracle:expression-shapes", nshape)
     first = core.run_harness([core.req("group", json.dumps({"files": [["p", s]]})) for s in srcs], timeout=3600)
     s1s, meta = [], []
